@@ -183,7 +183,7 @@ NEEDS_CONTIGS = {"ctor-fasta", "ctor-fasta-positional", "record-obj-fasta", "def
 # header itself declares (reported, not yet fixed): MafHeader.from_reader does not rebind the sort order when one half of
 # the (order, contigs) pair comes from the reader's file and the other half from its arguments.  Skipped where the
 # header's sort_order() is used for keys; a writer sorts with header.contigs(), so writer checks keep these routes.
-PENDING_DEFECTS = {"from_reader-file-contigs+order", "from_reader-file-order+contigs", "from_reader-file-both+contigs"}
+PENDING_DEFECTS = set()
 
 
 def routes_for(contigs, routes=None, skip_pending=True):
